@@ -2,6 +2,7 @@ package rules
 
 import (
 	"go/ast"
+	"go/token"
 	"go/types"
 
 	"gnetlint/core"
@@ -138,6 +139,104 @@ func runC01_12(c *core.Ctx) {
 			})
 			c.Check(okk, f.Name, construct, ad.stmt.Pos(), res.Name()+" is assigned from / increased by "+ad.k.Name()+" on every path",
 				"c.buffer is advanced by "+ad.k.Name()+" but a return is reachable on which the count result "+res.Name()+" does not include it: the caller is told fewer bytes than were taken out of the stream, the difference is lost")
+		}
+	}
+}
+
+func init() {
+	register(&core.Rule{ID: "C01.15", Prop: "C01", MinSites: 2,
+		Desc: "the Peek cache is a parking place, never a source: conn.cache (and a local copy of it) is read only to be measured (len/cap), compared with nil, or handed back to the byte pool – no function slices it, returns it, appends or copies from it: the bytes a handler receives always come from the inbound buffer and the read window of the current call, so what an earlier Peek assembled cannot be served again after Next/Read/WriteTo consumed it",
+		Run:  runC01_15})
+	alias("C12", "C12.13", "C01.15", "a slice parked for recycling that is handed out again is pooled (by the next Discard) while the application still reads it")
+}
+
+func runC01_15(c *core.Ctx) {
+	v := vocabOf(c)
+	if v == nil {
+		return
+	}
+	cacheF := c.P.Field("", "conn", "cache")
+	if !c.Need("conn.cache", cacheF) {
+		return
+	}
+	for _, f := range v.funcs {
+		if f.Decl.Body == nil {
+			continue
+		}
+		// uses of the field, and of locals that are copies of it, with their parent chain
+		sites := 0
+		aliases := map[types.Object]bool{}
+		var visit func(isSubject func(e ast.Expr) bool, what string, depth int)
+		visit = func(isSubject func(e ast.Expr) bool, what string, depth int) {
+			var stack []ast.Node
+			ast.Inspect(f.Decl.Body, func(n ast.Node) bool {
+				if n == nil {
+					stack = stack[:len(stack)-1]
+					return true
+				}
+				stack = append(stack, n)
+				e, ok := n.(ast.Expr)
+				if !ok || !isSubject(e) {
+					return true
+				}
+				// the nearest parent that is not a parenthesis
+				var parent ast.Node
+				for i := len(stack) - 2; i >= 0; i-- {
+					if _, isParen := stack[i].(*ast.ParenExpr); !isParen {
+						parent = stack[i]
+						break
+					}
+				}
+				okUse, why := false, ""
+				switch p := parent.(type) {
+				case *ast.CallExpr:
+					if id, isId := p.Fun.(*ast.Ident); isId {
+						if b, isB := f.Info.Uses[id].(*types.Builtin); isB && (b.Name() == "len" || b.Name() == "cap") {
+							okUse, why = true, "measured"
+						}
+					}
+					if arg, pool := poolPut(f, p); arg != nil && pool == "byteslice" && ast.Unparen(arg) == e {
+						okUse, why = true, "handed back to the byte pool"
+					}
+				case *ast.BinaryExpr:
+					if (p.Op == token.EQL || p.Op == token.NEQ) && (flow.IsNil(f.Info, p.X) || flow.IsNil(f.Info, p.Y)) {
+						okUse, why = true, "compared with nil"
+					}
+				case *ast.AssignStmt:
+					for _, l := range p.Lhs {
+						if ast.Unparen(l) == e {
+							return true // a write (C12.12 decides who may write what)
+						}
+					}
+					// a local copy: judged by its own uses
+					if depth == 0 && len(p.Lhs) == len(p.Rhs) {
+						for k, r := range p.Rhs {
+							if ast.Unparen(r) == e {
+								if lv, isVar := flow.ObjOf(f.Info, p.Lhs[k]).(*types.Var); isVar && !lv.IsField() && assignCount(f, lv) == 1 {
+									aliases[lv] = true
+									okUse, why = true, "copied into the local "+lv.Name()+" (judged by its uses)"
+								}
+							}
+						}
+					}
+				case *ast.SelectorExpr:
+					return true // c.cache itself is visited as the selector; its X is not a use of the field
+				}
+				sites++
+				c.Check(okUse, f.Name, "use of "+what+" #"+itoa(sites), e.Pos(), why,
+					nameOf(f.Obj)+" reads the contents of "+what+" (it is sliced, returned, appended or copied from): the slice an earlier Peek assembled is served again although Next, Read or WriteTo may have consumed those bytes since – the handler sees bytes of the stream twice and a following Discard drops bytes it never saw")
+				return true
+			})
+		}
+		visit(func(e ast.Expr) bool {
+			_, isSel := e.(*ast.SelectorExpr)
+			return isSel && flow.FieldOf(f.Info, e) == cacheF
+		}, "conn.cache", 0)
+		if len(aliases) > 0 {
+			visit(func(e ast.Expr) bool {
+				id, isId := e.(*ast.Ident)
+				return isId && f.Info.Uses[id] != nil && aliases[f.Info.Uses[id]]
+			}, "a copy of conn.cache", 1)
 		}
 	}
 }
